@@ -50,7 +50,7 @@ def _allclose_ok(ip, a, b):
     return None, None
 
 
-def run_fromarray(prog, with_k, preset, second=False):
+def run_fromarray(prog, with_k, preset, second=False, seqtype=None):
     ip = Interp(prog)
     ip.preset = list(preset)
     NAT.install_containers(ip, domain_transforms=False, tables=False, matrixarray=False)
@@ -59,6 +59,11 @@ def run_fromarray(prog, with_k, preset, second=False):
     cls = prog.cls(FA)
     w = Arr(N.sym('w'), 'omega_arg', ip)
     kk = Arr(N.sym('kk'), 'k_arg', ip)
+    if seqtype:
+        # the documented argument types are "list or array"; any sequence of numbers (a tuple, a range) is array-like for
+        # numpy and must be treated alike
+        kk.seqtype = seqtype
+        w.seqtype = seqtype
     kw = {'omega': w}
     if with_k:
         kw['k'] = kk
@@ -78,10 +83,12 @@ def rule_fromarray(ctx, rule='R12.g'):
     m = cls.find_method('calculate')
     mi = cls.find_method('__init__')
     lw, lk, lkk = (L.length_of(_decl(), N.sym(s)) for s in ('w', 'k', 'kk'))
-    for with_k, second in ((False, False), (True, False), (False, True), (True, True)):
-        tag = ('k given' if with_k else 'k omitted') + (', second evaluation on another grid' if second else '')
+    for with_k, second, seqtype in ((False, False, None), (True, False, None), (False, True, None), (True, True, None),
+                                    (True, False, 'list'), (True, False, 'tuple')):
+        tag = ('k given' if with_k else 'k omitted') + (', second evaluation on another grid' if second else '') + \
+            ((' (omega and k passed as a %s)' % seqtype) if seqtype else '')
         try:
-            worlds = explore(lambda preset: run_fromarray(ctx.prog, with_k, preset, second))
+            worlds = explore(lambda preset: run_fromarray(ctx.prog, with_k, preset, second, seqtype))
         except (Unsupported,) as e:
             ctx.undecided(rule, FA + '.calculate', '%s: %s' % (tag, e), m.loc())
             continue
